@@ -4,7 +4,7 @@
   receivers' theorems need (Props/C15Bytes, C17Bytes, C12Bytes, C02Bytes, C04Bytes,
   C06Bytes, C07Bytes).
 
-  * inversion: a successful read is `Wire`'s or (when `Wire` says unmodelled) `Codec`'s;
+  * inversion: a successful read is `Codec`'s or (when `Codec` says unmodelled) `Wire`'s;
   * the tail of every packet stream a front end produces is a clean end or a
     plain decode error — never an `Err.panic` (the `htail` hypothesis of the
     receivers' no-panic theorems is discharged for every byte string);
@@ -34,36 +34,71 @@ theorem SigReadPlain.no_panic {sr : Sign.SigRead} (h : SigReadPlain sr) : ∀ e,
   intro e he
   rcases h e he with h | h <;> rw [h] <;> rfl
 
-/-! ### `orCodec` -/
+/-! ### `orWire` -/
 
-theorem orCodec_ok {α : Type} {w : Wire.Front α} {c : Unit → Except String α} {x : α}
-    (h : Front.orCodec w c = .ok x) :
-    w = .ok x ∨ ∃ why, w = .unmodelled why ∧ c () = .ok x := by
-  unfold Front.orCodec at h
-  cases w with
+theorem orWire_ok {α : Type} {c : Except String α} {w : Unit → Wire.Front α} {x : α}
+    (h : Front.orWire c w = .ok x) :
+    c = .ok x ∨ ∃ why, c = .error why ∧ w () = .ok x := by
+  unfold Front.orWire at h
+  cases c with
   | ok y => simp at h; exact Or.inl (by rw [h])
-  | unmodelled why =>
+  | error why =>
     right
     refine ⟨why, rfl, ?_⟩
-    cases hc : c () with
-    | ok y => simp [hc] at h; rw [h]
-    | error e => simp [hc] at h
+    cases hw : w () with
+    | ok y => simp [hw] at h; rw [h]
+    | unmodelled e => simp [hw] at h
 
-theorem orCodec_error {α : Type} {w : Wire.Front α} {c : Unit → Except String α} {why : String}
-    (h : Front.orCodec w c = .error why) :
-    w = .unmodelled why ∧ ∃ why', c () = .error why' := by
-  unfold Front.orCodec at h
-  cases w with
+theorem orWire_error {α : Type} {c : Except String α} {w : Unit → Wire.Front α} {why : String}
+    (h : Front.orWire c w = .error why) :
+    c = .error why ∧ ∃ why', w () = .unmodelled why' := by
+  unfold Front.orWire at h
+  cases c with
   | ok y => simp at h
-  | unmodelled w' =>
-    cases hc : c () with
-    | ok y => simp [hc] at h
-    | error e => simp [hc] at h; exact ⟨by rw [h], e, rfl⟩
+  | error w' =>
+    cases hw : w () with
+    | ok y => simp [hw] at h
+    | unmodelled e => simp [hw] at h; exact ⟨by rw [h], e, rfl⟩
 
-/-- the front end is the spec-shaped reader wherever that one answers -/
-theorem orCodec_of_wire {α : Type} {w : Wire.Front α} {c : Unit → Except String α} {x : α}
-    (h : w = .ok x) : Front.orCodec w c = .ok x := by
+/-- the front end is go-codec's typed reader wherever that one answers -/
+theorem orWire_of_codec {α : Type} {c : Except String α} {w : Unit → Wire.Front α} {x : α}
+    (h : c = .ok x) : Front.orWire c w = .ok x := by
   subst h; rfl
+
+/-- … and the spec-shaped reader only where the typed reader gives up -/
+theorem orWire_of_wire {α : Type} {c : Except String α} {w : Unit → Wire.Front α} {x : α} {why : String}
+    (hc : c = .error why) (hw : w () = .ok x) : Front.orWire c w = .ok x := by
+  subst hc; simp [Front.orWire, hw]
+
+theorem orWire_error_iff {α : Type} {c : Except String α} {w : Unit → Wire.Front α} {why : String} :
+    Front.orWire c w = .error why ↔ c = .error why ∧ ∃ why', w () = .unmodelled why' := by
+  refine ⟨orWire_error, ?_⟩
+  rintro ⟨rfl, why', hw⟩
+  simp [Front.orWire, hw]
+
+theorem codecDetached_ok {sigMsg : Bytes} {hr : HeaderRead SigHeader} {sr : Sign.SigRead}
+    (h : Front.codecDetached sigMsg = .ok (hr, sr)) :
+    ∃ d, Codec.splitDetached sigMsg = .ok (hr, d) ∧ sr = Front.detSig d := by
+  unfold Front.codecDetached at h
+  split at h
+  · rename_i hr' d hsd
+    cases h
+    exact ⟨d, hsd, rfl⟩
+  · cases h
+
+theorem codecDetached_of_ok {sigMsg : Bytes} {hr : HeaderRead SigHeader} {d : Codec.DetSig}
+    (h : Codec.splitDetached sigMsg = .ok (hr, d)) : Front.codecDetached sigMsg = .ok (hr, Front.detSig d) := by
+  unfold Front.codecDetached; rw [h]
+
+theorem codecDetached_error {sigMsg : Bytes} {why : String} :
+    Front.codecDetached sigMsg = .error why ↔ Codec.splitDetached sigMsg = .error why := by
+  unfold Front.codecDetached
+  constructor
+  · intro h
+    split at h
+    · cases h
+    · rename_i w hw; cases h; exact hw
+  · intro h; rw [h]
 
 /-! ### tails of `Wire.split` -/
 
@@ -155,29 +190,28 @@ theorem detSig_plain (d : Codec.DetSig) : SigReadPlain (Front.detSig d) := by
 
 theorem readEnc_tail (msg : Bytes) (hr : HeaderRead EncHeader) (ps : PStream EncBlock)
     (h : Front.readEnc msg = .ok (hr, ps)) : TailPlain ps.tail := by
-  rcases orCodec_ok h with hw | ⟨_, _, hc⟩
-  · exact wire_split_tail _ _ msg hr ps hw
+  rcases orWire_ok h with hc | ⟨_, _, hw⟩
   · exact codec_split_tail _ _ msg hr ps hc
+  · exact wire_split_tail _ _ msg hr ps hw
 
 theorem readSigncrypt_tail (msg : Bytes) (hr : HeaderRead EncHeader) (ps : PStream SigncryptBlock)
     (h : Front.readSigncrypt msg = .ok (hr, ps)) : TailPlain ps.tail := by
-  rcases orCodec_ok h with hw | ⟨_, _, hc⟩
-  · exact wire_split_tail _ _ msg hr ps hw
+  rcases orWire_ok h with hc | ⟨_, _, hw⟩
   · exact codec_split_tail _ _ msg hr ps hc
+  · exact wire_split_tail _ _ msg hr ps hw
 
 theorem readSig_tail (msg : Bytes) (hr : HeaderRead SigHeader) (ps : PStream SigBlock)
     (h : Front.readSig msg = .ok (hr, ps)) : TailPlain ps.tail := by
-  rcases orCodec_ok h with hw | ⟨_, _, hc⟩
-  · exact wire_split_tail _ _ msg hr ps hw
+  rcases orWire_ok h with hc | ⟨_, _, hw⟩
   · exact codec_split_tail _ _ msg hr ps hc
+  · exact wire_split_tail _ _ msg hr ps hw
 
 theorem readDetached_plain (sigMsg : Bytes) (hr : HeaderRead SigHeader) (sr : Sign.SigRead)
     (h : Front.readDetached sigMsg = .ok (hr, sr)) : SigReadPlain sr := by
-  rcases orCodec_ok h with hw | ⟨_, _, hc⟩
+  rcases orWire_ok h with hc | ⟨_, _, hw⟩
+  · obtain ⟨d, _, rfl⟩ := codecDetached_ok hc
+    exact detSig_plain _
   · exact wire_splitDetached_plain sigMsg hr sr hw
-  · split at hc
-    · cases hc; exact detSig_plain _
-    · cases hc
 
 /-! ### the byte-level receivers unfolded -/
 
